@@ -149,6 +149,21 @@ def run_shard(spec, rec, lib):
         model, out = judge(case, rec, lib)
         if i % 25 == 7:
             noise.tick(lib, rng, spec.get("scratch"))
+        if i % 3 == 0 and model.v != models.GREY:
+            # the SAME two objects presented again (a client that keeps its trusted root in memory and is offered a document twice):
+            # the rule is evaluated on what the documents say, not on what an earlier call left behind in them
+            import copy
+
+            t, n = copy.deepcopy(case["trusted"]), copy.deepcopy(case["new"])
+            outs = [boundary.call(lib, lib.authentication.verify_root, t, n) for _ in range(3)]
+            rec.count("repeated_presentations_on_same_objects")
+            if any(o.accepted for o in outs) and model.v == models.REJECT:
+                rec.violation("unsound-accept/verify_root/repeated-presentation-on-the-same-objects/" + str(model.why).replace(" ", "-")[:60],
+                              "offer refused at first, accepted when the same objects were presented again (call %d of 3)"
+                              % (1 + [o.accepted for o in outs].index(True)), case)
+            elif len({o.accepted for o in outs}) > 1:
+                rec.violation("history-dependence/verify_root/verdict-changes-on-repeated-presentation", "verdicts %s for three identical calls"
+                              % [o.brief() for o in outs], case)
         if i % 4 == 1:
             tw = dict(case, stdout=rng.choice(hostile.MODES), row="stdout-fails:%s" % case.get("row"))
             judge(tw, rec, lib)
